@@ -52,12 +52,37 @@ func c13Guard(f func() ([]byte, error)) (out []byte, ec int) {
 	}
 }
 
-func c13ProtoOne(desc *proto.TypeDescriptor, sf []string, b []byte, dis1, dis2 bool) (hung bool) {
+func c13ProtoOne(r *rng, desc *proto.TypeDescriptor, sf []string, b []byte, dis1, dis2 bool) (hung bool) {
 	ctx := context.Background()
 	o1 := conv.Options{DisallowUnknownField: dis1}
 	o2 := conv.Options{DisallowUnknownField: dis2}
+	// rejected conversions right before the valid one, in the SAME goroutine (sync.Pool hands a goroutine back what it just put)
+	poison := r.fork()
+	poisonP2J := func(cv *p2j.BinaryConv, src []byte) {
+		if poison.chance(50) {
+			for _, bad := range c13BadBin(poison, src) {
+				noPanic(func() { cv.Do(ctx, desc, bad) })
+				if poison.chance(30) {
+					cvx := p2j.NewBinaryConv(conv.Options{})
+					noPanic(func() { cvx.Do(ctx, desc, bad) })
+				}
+			}
+		}
+	}
+	poisonJ2P := func(cv *j2p.BinaryConv, doc []byte) {
+		if poison.chance(50) {
+			for _, bad := range c13BadJSON(poison, doc) {
+				noPanic(func() { cv.Do(ctx, desc, bad) })
+				if poison.chance(50) {
+					cvx := j2p.NewBinaryConv(conv.Options{}) // DisallowUnknownField off: unknown members are skipped, not refused
+					noPanic(func() { cvx.Do(ctx, desc, bad) })
+				}
+			}
+		}
+	}
 	J, ec1 := c13Guard(func() ([]byte, error) {
 		cv := p2j.NewBinaryConv(o1)
+		poisonP2J(&cv, b)
 		return cv.Do(ctx, desc, append([]byte(nil), b...))
 	})
 	var b2, J2 []byte
@@ -65,11 +90,13 @@ func c13ProtoOne(desc *proto.TypeDescriptor, sf []string, b []byte, dis1, dis2 b
 	if ec1 == 0 {
 		b2, ec2 = c13Guard(func() ([]byte, error) {
 			cv := j2p.NewBinaryConv(o2)
+			poisonJ2P(&cv, J)
 			return cv.Do(ctx, desc, append([]byte(nil), J...))
 		})
 		if ec2 == 0 {
 			J2, ec3 = c13Guard(func() ([]byte, error) {
 				cv := p2j.NewBinaryConv(o1)
+				poisonP2J(&cv, b2)
 				return cv.Do(ctx, desc, append([]byte(nil), b2...))
 			})
 		}
@@ -310,7 +337,7 @@ func genC13Proto(r *rng, n int) {
 					unpackedForm++
 				}
 			}
-			if c13ProtoOne(c.Dyn, sf, b, r.chance(25), r.chance(25)) {
+			if c13ProtoOne(r, c.Dyn, sf, b, r.chance(25), r.chance(25)) {
 				out.w.Flush()
 				fmt.Fprintf(os.Stderr, "C13: a protobuf conversion did not answer within 2 s; case written, stopping\n")
 				os.Exit(0)
